@@ -142,6 +142,18 @@ def build_isal_ref(flavour, outdir):
     return out
 
 
+def build_shss_ref(flavour, outdir):
+    """Clean-room stand-in libshss.so.1 (verif-owned) placed next to the flavour's libs."""
+    cc, cflags, ldflags = flavour_flags(flavour)
+    libdir = os.path.join(outdir, flavour, "lib")
+    src = os.path.join(VERIF, "shss_ref", "shss_ref.c")
+    out = os.path.join(libdir, "libshss.so.1")
+    san = [f for f in cflags if not f.startswith("-DINTEL") and not f.startswith("-m")]
+    run([cc, "-std=gnu99", "-fPIC", "-shared", "-Wl,-soname,libshss.so.1"] + san +
+        ["-o", out, src] + ldflags)
+    return out
+
+
 def build_driver(flavour, outdir, name, sources, extra_cflags=(), extra_ld=()):
     """Compile a harness driver (C) against the flavour's liberasurecode.so."""
     cc, cflags, ldflags = flavour_flags(flavour)
